@@ -1,5 +1,6 @@
 import Bpmn.Props.C12
 import Bpmn.Props.C01FragmentCurrent
+import Bpmn.Props.C12Nest
 /-!
 # C12 — the sub-process node's contract in the engine model, for every program
 
@@ -154,6 +155,40 @@ theorem sub_programs_are_token_game (p : Proc) (hp : Bpmn.Props.C01Fragment.NoIn
     (ops : List (String × Nat × Answer)) :
     runOps Bpmn.Props.EngineCurrent.faithful p vars ops = runOps Cfg.ideal p vars ops :=
   Bpmn.Props.C01FragmentCurrent.current_noIncl_conformance p hp vars ops
+
+/-- a program of the nest shape has no inclusive gateway -/
+theorem nest_noIncl (p : Proc) (d : Nat) (U S E : Nat → String) (sh : Bpmn.Props.C12Nest.Shape p d U S E) :
+    Bpmn.Props.C01Fragment.NoIncl p := by
+  intro n hn hk
+  have := List.filter_eq_nil_iff.mp sh.noIncl n hn
+  simp [hk] at this
+  exact absurd this (by decide)
+
+/-- **C12 at any nesting depth, for today's engine model.** At the configuration extracted from /repo on this run, every
+program of the nest shape (`Props/C12Nest.Shape`: `d ≥ 1` sub-process levels around one task, one task behind them) runs as
+`Props/C12Nest.NestRun` says: the inner task is requested on start; once it is answered every level returns, innermost
+first, exactly once; the following task is requested once; the instance completes. -/
+theorem nest_run_current (p : Proc) (d : Nat) (U S E : Nat → String) (sh : Bpmn.Props.C12Nest.Shape p d U S E)
+    (vars : Vars) (r1 r2 : List (String × Int)) :
+    Bpmn.Props.C12Nest.NestRun p d E
+      (runOps Bpmn.Props.EngineCurrent.faithful p vars [])
+      (runOps Bpmn.Props.EngineCurrent.faithful p vars [("T", 1, .ok r1)])
+      (runOps Bpmn.Props.EngineCurrent.faithful p vars [("T", 1, .ok r1), ("C", 1, .ok r2)]) := by
+  rw [sub_programs_are_token_game p (nest_noIncl p d U S E sh), sub_programs_are_token_game p (nest_noIncl p d U S E sh),
+    sub_programs_are_token_game p (nest_noIncl p d U S E sh)]
+  exact Bpmn.Props.C12Nest.nest_run sh vars r1 r2
+
+/-- … in particular on the concrete family `nestProc d`, for every `d ≥ 1` -/
+theorem nestProc_run_current (d : Nat) (hd : 0 < d) (vars : Vars) (r1 r2 : List (String × Int)) :
+    Bpmn.Props.C12Nest.NestRun (Bpmn.Props.C12Nest.nestProc d) d (Bpmn.Props.C12Nest.nm 'E')
+      (runOps Bpmn.Props.EngineCurrent.faithful (Bpmn.Props.C12Nest.nestProc d) vars [])
+      (runOps Bpmn.Props.EngineCurrent.faithful (Bpmn.Props.C12Nest.nestProc d) vars [("T", 1, .ok r1)])
+      (runOps Bpmn.Props.EngineCurrent.faithful (Bpmn.Props.C12Nest.nestProc d) vars [("T", 1, .ok r1), ("C", 1, .ok r2)]) :=
+  nest_run_current _ d _ _ _ (Bpmn.Props.C12Nest.nest_shape d hd) vars r1 r2
+
+/-- the model's nest of depth 3 really is the program one would draw (executable check of the constructor) -/
+example : ((Bpmn.Props.C12Nest.nestProc 3).nodes.map (·.id), (start Cfg.ideal (Bpmn.Props.C12Nest.nestProc 3) []).obs) =
+    (["s", "T", "C", "e", "U", "Ux", "Uxx", "S", "Sx", "Sxx", "E", "Ex", "Exx"], [.req "T"]) := by decide
 
 /-- non-vacuity: the nested, looped sub-process program of Props/C01Fragment has sub-processes and no inclusive gateway -/
 example : Bpmn.Props.C01Fragment.NoIncl Bpmn.Props.C01Fragment.demoSub ∧
